@@ -346,6 +346,21 @@ def bounds_cases(draw):
             ub = None
         bounds.append({"id": ses["id"], "lb": lb, "ub": ub})
     spec["bounds"] = bounds
+    if draw(st.integers(0, 3)) == 0:
+        # a finely graded station whose table omits the implied 0 A, behind a breaker that leaves
+        # less head-room than its lowest level: the largest listed level that fits is none -> 0 A
+        ses = draw(st.sampled_from(spec["sessions"]))
+        stn = [x for x in spec["stations"] if x["id"] == ses["station"]][0]
+        stn.clear()
+        stn.update({"id": ses["station"], "voltage": 208.0, "phase": draw(st.sampled_from([30.0, -90.0, 150.0])), "kind": "finite", "rates": draw(st.sampled_from([[6.0 + 0.25 * k for k in range(105)], [8, 16, 24, 32], [6, 12.5, 20]]))})
+        if ses["station"] not in spec["strip_zero"]:
+            spec["strip_zero"] = sorted(spec["strip_zero"] + [ses["station"]])
+        spec["constraints"] = spec["constraints"] + [{"name": "breaker", "limit": draw(st.sampled_from([4.0, 5.5])), "coeffs": {ses["station"]: 1.0}}]
+        ses["energy"] = 12.0
+        ses["served_amps"] = 0.0
+        for b in bounds:
+            if b["id"] == ses["id"]:
+                b["ub"] = None
     return spec
 
 
@@ -578,7 +593,7 @@ def cases(draw, finite_max=True, large=False):
     big = large and draw(st.integers(0, 5)) == 0
     if big:
         # a full car park: 16-22 sessions queued at once on three phases
-        n = draw(st.integers(16, 22))
+        n = draw(st.sampled_from([16, 18, 18, 21, 21, 22]))
         ids = ["PS-%d" % i for i in draw(st.permutations(range(1, n + 1)))]
     stations = [draw(sc.station_specs(i, ("cont0", "finite"))) for i in ids]
     period = draw(st.sampled_from([1, 5, 15, 7, 8, 2.5]))
@@ -599,12 +614,19 @@ def cases(draw, finite_max=True, large=False):
         members = draw(st.lists(st.sampled_from(ids), min_size=n // 2 if big else 1, max_size=n, unique=True))
         coeffs = {i: draw(st.sampled_from([1.0, 1.0, 1.0, -1.0, 0.5, -0.25])) for i in members}
         cons.append({"name": "con-%d" % j, "limit": draw(st.sampled_from([4.0, 7.5, 10.0, 20.0, 33.0, 50.0, 100.0])), "coeffs": coeffs})
-    if big and draw(st.booleans()):
+    if big and n % 3 == 0 and draw(st.integers(0, 3)) > 0:
         # a wye site with a neutral-conductor limit: balanced currents cancel, a single raise does not
         tri = draw(st.sampled_from([[0.0, -120.0, 120.0], [30.0, -90.0, 150.0]]))
+        same = draw(st.sampled_from([[0, 8, 16, 24, 32], [0] + list(range(6, 33))]))
         for q, stn in enumerate(stations):
-            stn["phase"] = tri[q % 3]
-        cons = [{"name": "neutral", "limit": draw(st.sampled_from([4.0, 7.5, 10.0])), "coeffs": {i: 1.0 for i in ids}}] + cons[:2]
+            vlt, sid_ = stn["voltage"], stn["id"]
+            stn.clear()
+            # identical equipment on every space: a balanced raise of all phases cancels in the neutral
+            stn.update({"id": sid_, "voltage": vlt, "phase": tri[q % 3], "kind": "finite", "rates": list(same)})
+        cons = [{"name": "neutral", "limit": draw(st.sampled_from([4.0, 5.5, 7.5])), "coeffs": {i: 1.0 for i in ids}}] + [c for c in cons[:2] if c["limit"] >= 50.0]
+        for ses in sessions:
+            # everybody still needs hours of charging: the rounds stay balanced
+            ses["energy"], ses["served_amps"] = round(40.0 + 0.37 * sessions.index(ses), 3), 0.0
     return {"period": period, "stations": stations, "constraints": cons, "sessions": sessions, "sort": draw(st.sampled_from(sorted(sc.SORTS))), "inc": draw(st.sampled_from([0.1, 0.5, 1, 2.5]))}
 
 
